@@ -12,6 +12,15 @@ BASE_NOTE = (
 
 # property -> (category, text, technique, design_ref, extra note)
 CLAIMS = {
+    "C05": (
+        "other",
+        "Provenance (taint) obligations over the real source, enumerated on every run: every construction of Markup in liquid/** (21 sites) has an argument of an admitted provenance (template literal, buffer of already-escaped writes, escaped earlier in the same function, derived from a value tested to be Markup, percent-/js-encoded, immediately unescaped, or exempt by the statement); "
+        "the translate filters, which mark their left value as markup, are registered with autoescape_message=env.autoescape; every buffer.write in a node's render method writes to_liquid_string(..., autoescape), template text or a nested buffer. "
+        "to_liquid_string(val, True) is verified to return escape(text) for every non-safe value. The clause 'every & begins an escape sequence' is not a provenance fact and is decided by a bounded check (4 hostile values x filter chains of length <= 2 over 46 filters, 14 tag frames).",
+        "taint/provenance contract obligations (pyvc-flow) + deductive contract on to_liquid_string + bounded contract check",
+        "DESIGN.md section 4 C05",
+        "markupsafe's contracts are assumed (DESIGN 3). Known finding: cut escape sequences.",
+    ),
     "C09": (
         "other",
         "Depth ghost contracts on the real RenderContext.copy (every copy is exactly one level deeper and is cut off with ContextDepthError exactly beyond the limit) and RenderContext.extend (the block runs one scope deeper, cut off beyond the limit); "
